@@ -38,8 +38,11 @@ def main(argv=None):
         rep = Report(prop, args.tier, seed)
         ctx = Context(args.repo)
         mod.run(ctx, rep)
-        if args.tier == "thorough" and hasattr(mod, "run_thorough"):
-            mod.run_thorough(ctx, rep)
+        if args.tier == "thorough":
+            if hasattr(mod, "run_thorough"):
+                mod.run_thorough(ctx, rep)
+            from . import sensitivity
+            sensitivity.run(ctx, rep, prop, seed=seed)
         if args.replay:
             with open(args.replay) as fh:
                 old = json.load(fh)
